@@ -4,7 +4,7 @@
 # usage: tools/seedverify.sh [name-prefix]
 cd /verif
 for d in seeded/${1}*/; do
-  n=$(basename $d); p=${n%%-*}; p=${p%b}; w=/tmp/sv_$p
+  n=$(basename $d); p=${n%%-*}; p=${p%[bc]}; w=/tmp/sv_$p
   git -C /repo worktree add -f $w HEAD -q 2>/dev/null
   if ! git -C $w apply /verif/$d/patch.diff 2>/dev/null; then echo "$n: PATCH DOES NOT APPLY"; git -C /repo worktree remove --force $w; continue; fi
   out=$(VERIF_REPO=$w timeout 1800 ./check $p quick 2>&1); rc=$?
